@@ -244,7 +244,7 @@ def post (sq : Seq) (st : St) (out : PyRes Val) : Option String :=
       | .ok unlock =>
         let pairs := v.addrs.zip raw
         let lockCell := pairs.any fun p => b0.isLockCell p.1
-        let stored : Bool := pairs.all (fun p => if b0.isLockCell p.1 then b.lockByte == p.2 else b.rw p.1 == p.2)
+        let stored : Bool := pairs.all (fun p => if b0.isLockCell p.1 then (if unlock then b.lockByte == 0xFF else b.lockByte == p.2) else b.rw p.1 == p.2)
           && sameRwExcept b0 b (pairs.map (·.1))
           && (lockCell || unlock || b.lockByte == b0.lockByte)
           && (!unlock || lockCell || b.lockByte == 0xFF)
